@@ -16,11 +16,12 @@ RULE = ("self-recursive defuns whose self-call sits in the tail of nestings (dep
 ASSUMPTIONS = ["one unit of model depth is a bounded number of bytes of host stack: measured by the probe, not proved"]
 ENV = {}
 
-def wrap_tail(rng, core, depth):
+WRAPS = ["if", "if2", "cond", "progn", "let", "let*", "when", "unless", "cond2"]
+def wrap_tail(rng, core, depth, kinds=None):
     """nest the tail expression `core` in tail-carrying forms"""
     e = core
-    for _ in range(depth):
-        k = rng.choice(["if", "if2", "cond", "progn", "let", "let*", "when", "unless", "cond2"])
+    for i in range(depth):
+        k = kinds[i] if kinds else rng.choice(WRAPS)
         if k == "if": e = "(if (> n 0) %s acc)" % e
         elif k == "if2": e = "(if (<= n 0) acc (tick n) %s)" % e
         elif k == "cond": e = "(cond ((<= n 0) acc) (t %s))" % e
@@ -41,6 +42,11 @@ def bodies(rng, tier):
             for _ in range(4 if tier == "quick" else 12):
                 guard = "(if (<= n 0) acc %s)" % wrap_tail(rng, core, d)
                 out.append(("(n acc)", guard, "(f %d 0)"))
+    # every ordered pair of tail-carrying forms (inner, outer), systematically
+    for k1 in WRAPS:
+        for k2 in WRAPS:
+            guard = "(if (<= n 0) acc %s)" % wrap_tail(rng, cores[0] if (k1 + k2).count("let") == 0 else cores[1], 2, [k1, k2])
+            out.append(("(n acc)", guard, "(f %d 0)"))
     # non-tail and mixed positions
     out.append(("(n acc)", "(if (<= n 0) acc (+ 1 (f (- n 1) acc)))", "(f %d 0)"))
     out.append(("(n acc)", "(if (<= n 0) acc (if (f (- n 1) acc) (f (- n 2) (+ acc 1)) 0))", "(f %d 0)"))
